@@ -245,6 +245,21 @@ def case_reduce(ctx, p):
             mon.check("workload:%s.reduce_cell raises on a valid cell" % m, False, observed=repr(exc), detail=c)
         finally:
             ctx.in_reduce[m] = False
+        if p["kind"] in ("orthogonal", "ties", "unimodular", "oblique") and int(c[0] * 1e6) % 3 == 0:
+            # the same float64 array, seen once, then given new contents in place, then handed in again
+            held = np.array(c, float)
+            held[:3] *= 1.0625            # numbers the module has not seen before: its first sight of them is this very object
+            ctx.in_reduce[m] = True
+            try:
+                mod.reduce_cell(held)
+                held[:3] *= 1.0 + 0.37 * ((int(c[1] * 1e6) % 5) + 1) / 5.0
+                held[:3] = held[[1, 2, 0]] if int(c[2] * 1e6) % 2 and p["kind"] == "orthogonal" else held[:3]
+                del ctx.seen[m][:]
+                mod.reduce_cell(held)
+            except Exception as exc:
+                mon.check("workload:%s.reduce_cell raises on a valid cell" % m, False, observed=repr(exc), detail=held)
+            finally:
+                ctx.in_reduce[m] = False
 
 
 CASES = {"reduce": case_reduce}
